@@ -883,19 +883,8 @@ func (g *c15Gen) misc() {
 		c.flags, c.expect, c.note = "n", "fail", "no arguments"
 		return c
 	})
-	// -version
-	for _, so := range []string{"u", "f"} {
-		so := so
-		one(func(r *h.Rand) *cliCase {
-			c := newCase("misc-version")
-			c.flags, c.stdout, c.note = "v", so, "-version"
-			if so == "u" {
-				c.expect = "ok"
-				c.wantOut = g.e.verLine
-			}
-			return c
-		})
-	}
+	// -version: the version line is a result like any other
+	g.versionCases(false)
 	// flag syntax errors are outside the model (it starts from parsed flags)
 	one(func(r *h.Rand) *cliCase {
 		c := newCase("misc-unknown-flag")
@@ -1062,6 +1051,41 @@ func (g *c15Gen) misc() {
 		c.ids = []idFlag{{"i", "wrong.txt", true}, {"i", "key.txt", true}}
 		return c
 	})
+}
+
+// versionCases: `-version` to a pipe, /dev/full, a pipe closing early, a file under RLIMIT_FSIZE.
+// Direct oracle: exit 0 iff the whole version line was delivered.
+func (g *c15Gen) versionCases(keygenBin bool) {
+	e := g.e
+	total := len(e.verLine)
+	type v struct {
+		mode string
+		lim  int
+	}
+	vs := []v{{"pipe-open", 0}, {"devfull-stdout", 0}}
+	for _, lim := range []int{0, 1, total - 1, total, total + 1, 4096} {
+		vs = append(vs, v{"fsize-stdout", lim}, v{"pipe", lim})
+	}
+	for _, x := range vs {
+		x := x
+		g.do(func(r *h.Rand) *cliCase {
+			c := newCase("version")
+			if keygenBin {
+				c.kind = "keygen-version"
+			}
+			c.keygenBin, c.flags, c.sumMode = keygenBin, "v", "hash"
+			c.ctLen = total
+			c.expect, c.wantOut = "ok", e.verLine
+			if x.mode != "pipe-open" && !c.failOutput(x.mode, x.lim) {
+				return nil
+			}
+			if c.expect == "ok" {
+				c.wantOut = e.verLine
+			}
+			c.note = fmt.Sprintf("-version with standard output %s %d", x.mode, x.lim)
+			return c
+		})
+	}
 }
 
 // ---------- age-keygen ----------
@@ -1272,11 +1296,7 @@ func (g *c15Gen) keygen() {
 			})
 		}
 	}
-	many(func(r *h.Rand) *cliCase {
-		c := gen("keygen-version")
-		c.flags, c.sumMode, c.checkOut, c.wantOut, c.note = "v", "hash", nil, e.verLine, "-version"
-		return c
-	})
+	g.versionCases(true)
 }
 
 // ---------- runs with a (pseudo) terminal: passphrases, output to a terminal ----------
